@@ -3,6 +3,7 @@ package main
 import (
 	"verif/harness"
 	"verif/sim"
+	"verif/unit"
 )
 
 var simAssumptions = []string{
@@ -79,6 +80,16 @@ func init() {
 		Rule:       "adversarial cases aimed at poisoning what correct nodes later emit; every delivery of a correct node's NEW_VIEW / VIEW_CHANGE / PREPARE / COMMIT to a correct peer that meets the stated precondition is judged for acceptance; non-trivial = a NEW_VIEW delivery was judged in a case with adversarial deliveries",
 		Floors:     map[string]int{"C11 judged NEW_VIEW": 1000, "C11 judged VIEW_CHANGE": 3000, "C11 judged PREPARE": 3000, "C11 judged COMMIT": 3000},
 		Judged:     []string{"C11 judged NEW_VIEW", "C11 judged VIEW_CHANGE", "C11 judged PREPARE", "C11 judged COMMIT", "C11 NV precondition unmet", "C11 VC precondition unmet", "C11 P precondition unmet"}})
+	reg(&sim.SimCheck{Prop: "C18", Workload: "c18", Profile: advProfile(merge(noBare, map[string]int{"hugeView": 10, "vcGames": 15}), 500, 2),
+		QuickCases: 1500, ThoroughCases: 40000,
+		NonTrivial: func(r *sim.Result) bool { return r.Stats["C18 view change destinations judged"] > 3 },
+		Rule:       "(a) the real leader function tabulated next to committee[view mod n] for n=4..64 and views 0..4n, 2^k, 2^k+-1, +-70 around 2^31, 2^32, 2^63, 2^64-1 and random 64-bit views, plus 'each member leads once in n consecutive views'; (b) behaviour in sim executions: every VIEW_CHANGE a correct node sends must go to the member at position view mod n and the member at that position must collect instead of sending, NEW_VIEWs only from that member; non-trivial case = more than 3 VIEW_CHANGE destinations judged",
+		Floors:     map[string]int{"C18 view change destinations judged": 20000},
+		Judged:     []string{"C18 view change destinations judged", "adv hugeView"},
+		Extra: func(run *harness.Run) ([]harness.Finding, map[string]interface{}) {
+			fs, evals, distinct, samples := unit.CheckC18Table(run)
+			return fs, map[string]interface{}{"leader_table_evaluations": evals, "leader_table_distinct_(n,view-class,position)": len(distinct), "leader_table_samples": samples}
+		}})
 }
 
 func merge(ms ...map[string]int) map[string]int {
